@@ -5,7 +5,7 @@
 (* and may stall; `need` is the number of segments the reader still waits for.     *)
 EXTENDS Integers, FiniteSets, TLC
 
-CONSTANTS Callers, Segs, Limit,
+CONSTANTS Callers, Segs, Limit,   \* Segs: set of possible segment counts
           FlagBeforeResult,   \* mutant: isHeaderRead stored before header/err are assigned
           NoTimeout           \* mutant: no deadline on the header read
 
@@ -13,58 +13,61 @@ VARIABLES arrived, stalled, clock, started,     \* peer / time
           mu, isRead, result,                   \* Conn fields (result: "none" | "hdr" | "bad" | "timeout")
           rd,                                   \* reader goroutine: "idle" | "running" | "ok" | "bad"
           sel,                                  \* select outcome of the caller holding mu
-          pc, saw, closed, kind                 \* per caller; socket; header kind
+          pc, saw, closed, kind,                \* per caller; socket; header kind
+          nseg                                  \* segments the peer needs to deliver the whole header
 
-vars == <<arrived, stalled, clock, started, mu, isRead, result, rd, sel, pc, saw, closed, kind>>
+vars == <<arrived, stalled, clock, started, mu, isRead, result, rd, sel, pc, saw, closed, kind, nseg>>
 
 Init == /\ arrived = 0 /\ stalled = FALSE /\ clock = 0 /\ started = -1
         /\ mu = "free" /\ isRead = FALSE /\ result = "none" /\ rd = "idle" /\ sel = "none"
-        /\ pc = [c \in Callers |-> "start"] /\ saw = [c \in Callers |-> "none"]
-        /\ closed = FALSE /\ kind \in {"good", "malformed"}
+        /\ pc = [c \in Callers |-> "idle"] /\ saw = [c \in Callers |-> "none"]
+        /\ closed = FALSE /\ kind \in {"good", "malformed"} /\ nseg \in Segs
 
 (* ---- peer and clock ---- *)
-Deliver == /\ arrived < Segs /\ ~stalled /\ ~closed /\ arrived' = arrived + 1
-           /\ UNCHANGED <<stalled, clock, started, mu, isRead, result, rd, sel, pc, saw, closed, kind>>
-Stall   == /\ ~stalled /\ arrived < Segs /\ stalled' = TRUE
-           /\ UNCHANGED <<arrived, clock, started, mu, isRead, result, rd, sel, pc, saw, closed, kind>>
+Deliver == /\ arrived < nseg /\ ~stalled /\ ~closed /\ arrived' = arrived + 1
+           /\ UNCHANGED <<stalled, clock, started, mu, isRead, result, rd, sel, pc, saw, closed, kind, nseg>>
+Stall   == /\ ~stalled /\ arrived < nseg /\ stalled' = TRUE
+           /\ UNCHANGED <<arrived, clock, started, mu, isRead, result, rd, sel, pc, saw, closed, kind, nseg>>
 Tick    == /\ ((started = -1 /\ clock < 1) \/ (started >= 0 /\ clock < started + Limit + 1)) /\ clock' = clock + 1
            \* time cannot pass the deadline while the waiting caller could take it
            /\ ~(rd = "running" /\ ~NoTimeout /\ started >= 0 /\ clock >= started + Limit /\ sel = "none")
-           /\ UNCHANGED <<arrived, stalled, started, mu, isRead, result, rd, sel, pc, saw, closed, kind>>
+           /\ UNCHANGED <<arrived, stalled, started, mu, isRead, result, rd, sel, pc, saw, closed, kind, nseg>>
 
 (* ---- reader goroutine (net.go:120-126): ReadHeader(c.Conn) ---- *)
-ReaderDone == /\ rd = "running" /\ (arrived = Segs \/ closed)
-              /\ rd' = IF closed /\ arrived < Segs THEN "bad" ELSE IF kind = "good" THEN "ok" ELSE "bad"
-              /\ UNCHANGED <<arrived, stalled, clock, started, mu, isRead, result, sel, pc, saw, closed, kind>>
+ReaderDone == /\ rd = "running" /\ (arrived = nseg \/ closed)
+              /\ rd' = IF closed /\ arrived < nseg THEN "bad" ELSE IF kind = "good" THEN "ok" ELSE "bad"
+              /\ UNCHANGED <<arrived, stalled, clock, started, mu, isRead, result, sel, pc, saw, closed, kind, nseg>>
 
 (* ---- a caller: readHeaderContext (net.go:101-146) ---- *)
+Call(c) ==    /\ pc[c] = "idle" /\ pc' = [pc EXCEPT ![c] = "start"]
+              /\ UNCHANGED <<arrived, stalled, clock, started, mu, isRead, result, rd, sel, saw, closed, kind, nseg>>
 Fast(c) ==    /\ pc[c] = "start"
               /\ IF isRead THEN pc' = [pc EXCEPT ![c] = "ret"] /\ saw' = [saw EXCEPT ![c] = result]
                            ELSE pc' = [pc EXCEPT ![c] = "lock"] /\ UNCHANGED saw
-              /\ UNCHANGED <<arrived, stalled, clock, started, mu, isRead, result, rd, sel, closed, kind>>
+              /\ UNCHANGED <<arrived, stalled, clock, started, mu, isRead, result, rd, sel, closed, kind, nseg>>
 Lock(c) ==    /\ pc[c] = "lock" /\ mu = "free" /\ mu' = c
               /\ IF isRead THEN pc' = [pc EXCEPT ![c] = "unlock"] /\ saw' = [saw EXCEPT ![c] = result] /\ UNCHANGED <<rd, started>>
                            ELSE pc' = [pc EXCEPT ![c] = "wait"] /\ rd' = "running" /\ started' = clock /\ UNCHANGED saw
-              /\ UNCHANGED <<arrived, stalled, clock, isRead, result, sel, closed, kind>>
+              /\ UNCHANGED <<arrived, stalled, clock, isRead, result, sel, closed, kind, nseg>>
 \* select { case <-ctx.Done(): ... case r := <-resCh: ... }
 Select(c) ==  /\ pc[c] = "wait" /\ mu = c /\ sel = "none"
               /\ \/ /\ rd \in {"ok", "bad"} /\ sel' = rd /\ UNCHANGED closed
                  \/ /\ ~NoTimeout /\ clock >= started + Limit /\ rd = "running"
                     /\ sel' = "timeout" /\ closed' = TRUE                    \* c.Conn.Close()
               /\ pc' = [pc EXCEPT ![c] = IF FlagBeforeResult THEN "flag" ELSE "assign"]
-              /\ UNCHANGED <<arrived, stalled, clock, started, mu, isRead, result, rd, saw, kind>>
+              /\ UNCHANGED <<arrived, stalled, clock, started, mu, isRead, result, rd, saw, kind, nseg>>
 Assign(c) ==  /\ pc[c] = "assign" /\ mu = c
               /\ result' = (CASE sel = "ok" -> "hdr" [] sel = "bad" -> "bad" [] sel = "timeout" -> "timeout")
               /\ pc' = [pc EXCEPT ![c] = IF FlagBeforeResult THEN "unlock" ELSE "flag"]
               /\ saw' = [saw EXCEPT ![c] = result']
-              /\ UNCHANGED <<arrived, stalled, clock, started, mu, isRead, rd, sel, closed, kind>>
+              /\ UNCHANGED <<arrived, stalled, clock, started, mu, isRead, rd, sel, closed, kind, nseg>>
 Flag(c) ==    /\ pc[c] = "flag" /\ mu = c /\ isRead' = TRUE
               /\ pc' = [pc EXCEPT ![c] = IF FlagBeforeResult THEN "assign" ELSE "unlock"]
-              /\ UNCHANGED <<arrived, stalled, clock, started, mu, result, rd, sel, saw, closed, kind>>
+              /\ UNCHANGED <<arrived, stalled, clock, started, mu, result, rd, sel, saw, closed, kind, nseg>>
 Unlock(c) ==  /\ pc[c] = "unlock" /\ mu = c /\ mu' = "free" /\ pc' = [pc EXCEPT ![c] = "ret"]
-              /\ UNCHANGED <<arrived, stalled, clock, started, isRead, result, rd, sel, saw, closed, kind>>
+              /\ UNCHANGED <<arrived, stalled, clock, started, isRead, result, rd, sel, saw, closed, kind, nseg>>
 
-CNext(c) == Fast(c) \/ Lock(c) \/ Select(c) \/ Assign(c) \/ Flag(c) \/ Unlock(c)
+CNext(c) == Call(c) \/ Fast(c) \/ Lock(c) \/ Select(c) \/ Assign(c) \/ Flag(c) \/ Unlock(c)
 Next == Deliver \/ Stall \/ Tick \/ ReaderDone \/ \E c \in Callers : CNext(c)
 Spec == Init /\ [][Next]_vars /\ WF_vars(ReaderDone) /\ WF_vars(Tick) /\ \A c \in Callers : WF_vars(CNext(c))
 
@@ -74,7 +77,7 @@ Returned(c) == pc[c] = "ret"
 SameOutcome  == \A c, d \in Callers : Returned(c) /\ Returned(d) => saw[c] = saw[d]
 NeverNone    == \A c \in Callers : Returned(c) => saw[c] # "none"
 OneReader    == Cardinality({c \in Callers : pc[c] \in {"wait", "assign", "flag"}}) <= 1
-GoodAccepted == \A c \in Callers : Returned(c) /\ saw[c] = "hdr" => kind = "good" /\ arrived = Segs
+GoodAccepted == \A c \in Callers : Returned(c) /\ saw[c] = "hdr" => kind = "good" /\ arrived = nseg
 \* a stalled or malformed header fails only this connection, no later than the limit
 Bounded      == \A c \in Callers : (pc[c] = "wait" /\ rd = "running") => clock <= started + Limit
 EveryoneReturns == \A c \in Callers : <>Returned(c)
